@@ -96,6 +96,45 @@ Theorem T01_keepalive_stateless : forall tag (before after : list mreq) r,
 Proof. exact keepalive_stateless. Qed.
 Print Assumptions T01_keepalive_stateless.
 
+(* "Configured header rules and site credentials are applied": the configured stack is the httpspec part (everything
+   above), then the rules of the request's kind (--header, or --connect-header for CONNECT) in order, then the site
+   credentials, then the User-Agent sentinel -- and nothing else; without configuration the two steps vanish. *)
+Theorem T01_user_rules_applied : forall cfg tag r,
+  modify_request_cfg cfg tag r =
+    match core_stack tag r with
+    | Refused s => Refused s
+    | Passed r1 =>
+        Passed (set_hdr r1 (set_empty_user_agent (site_auth cfg
+                  (G16.Model.apply_rules (if str_eqb (q_method r) m_connect then p_connect_rules cfg else p_request_rules cfg)
+                                         (q_hdr r1)))))
+    end /\
+  modify_request tag r =
+    match core_stack tag r with
+    | Refused s => Refused s
+    | Passed r1 => Passed (set_hdr r1 (set_empty_user_agent (q_hdr r1)))
+    end.
+Proof. exact f01_rules_and_credentials. Qed.
+Print Assumptions T01_user_rules_applied.
+
+(* ... where applying a rule list means what C16 proves it means (documented meaning of every rule, in order). *)
+Theorem T01_user_rules_meet_c16_spec : forall rs h, G16.Proofs.Specs rs h (G16.Model.apply_rules rs h).
+Proof. exact G16.C16.T16_apply_is_spec. Qed.
+Print Assumptions T01_user_rules_meet_c16_spec.
+
+(* Site credentials: Authorization is attached exactly when the request carries no Authorization field at that point
+   (none from the client, none added by a rule) and the credentials matcher has an entry for the URL; an Authorization
+   the client sent -- whatever its value, even empty -- is never replaced; no other field is touched. *)
+Theorem T01_site_credentials_attached_only_when_absent : forall cfg h k,
+  raw_get k (site_auth cfg h) =
+    if str_eqb k k_authorization then
+      match raw_get k_authorization h with
+      | Some vs => Some vs
+      | None => match p_cred cfg with Some (u, p) => Some [basic_value u p] | None => None end
+      end
+    else raw_get k h.
+Proof. exact f01_site_auth. Qed.
+Print Assumptions T01_site_credentials_attached_only_when_absent.
+
 (* All clauses at once: for EVERY request the model's output satisfies the predicate that each run evaluates
    on the real modifier stack (scase_prop_ok: per field name the documented behaviour; refusal only for a loop
    (400) or contradictory Content-Length fields). *)
